@@ -146,19 +146,20 @@ type c19Acct struct {
 }
 
 type c19Case struct {
-	Suite  string    `json:"suite"`
-	Tags   []string  `json:"tags,omitempty"`
-	NT     bool      `json:"nt"`
-	Height int64     `json:"height"`
-	Base   string    `json:"base_fee"`
-	MGP    string    `json:"min_gas_price_dec"`
-	Mult   string    `json:"min_gas_multiplier_dec"`
-	BLim   int64     `json:"block_gas_limit"`
-	Accts  []c19Acct `json:"accounts"`
-	Coll   string    `json:"collector"`
-	BGas   uint64    `json:"block_gas"`
-	World  string    `json:"world"`
-	Txs    []c19Tx   `json:"txs"`
+	Suite    string    `json:"suite"`
+	Tags     []string  `json:"tags,omitempty"`
+	NT       bool      `json:"nt"`
+	Height   int64     `json:"height"`
+	Proposer string    `json:"proposer"`
+	Base     string    `json:"base_fee"`
+	MGP      string    `json:"min_gas_price_dec"`
+	Mult     string    `json:"min_gas_multiplier_dec"`
+	BLim     int64     `json:"block_gas_limit"`
+	Accts    []c19Acct `json:"accounts"`
+	Coll     string    `json:"collector"`
+	BGas     uint64    `json:"block_gas"`
+	World    string    `json:"world"`
+	Txs      []c19Tx   `json:"txs"`
 }
 
 // ---- suite state --------------------------------------------------------------------------------------
@@ -177,6 +178,12 @@ type c19S struct {
 	delegP                                   *delegationprecompile.Precompile
 	lzNonce                                  uint64
 	fresh                                    int
+	// block-level dimension: who proposes the block and in which state that validator is
+	blockNo    int
+	jailed     int // validator jailed for the current block (-1 none); unjailed before the next one
+	keyCounter int
+	replaced   map[int]bool
+	optedOut   bool
 }
 
 var c19WorldStores = []string{evmtypes.StoreKey, assetstypes.StoreKey, delegationtypes.StoreKey, operatortypes.StoreKey,
@@ -515,6 +522,57 @@ func runC19(a *Args) error {
 	return nil
 }
 
+// nextBlockProposer ends the current block and begins the next one with genesis validator v (in turn) as proposer, after
+// putting v into one of the states a validator can be in while it is still in the CometBFT set mid-epoch (dogfood changes
+// the set only at epoch ends, here "day"): active, jailed (real dogfood Jail, undone before the following block), consensus
+// key just replaced (it keeps proposing with the old key), opted out of the chain's AVS and unbonding.
+func (s *c19S) nextBlockProposer() string {
+	env, rng := s.env, s.rng
+	chainID := avstypes.ChainIDWithoutRevision(env.ChainID)
+	if s.replaced == nil {
+		s.replaced = map[int]bool{}
+		s.jailed = -1
+	}
+	if s.jailed >= 0 {
+		env.App.StakingKeeper.Unjail(env.Ctx, env.ConsKeys[s.jailed].ToConsAddr())
+		s.jailed = -1
+	}
+	v := s.blockNo % len(env.ConsKeys)
+	s.blockNo++
+	cons := env.ConsKeys[v].ToConsAddr()
+	state := "active"
+	switch r := rng.Intn(20); {
+	case r < 5:
+		env.App.StakingKeeper.Jail(env.Ctx, cons)
+		s.jailed = v
+		state = "jailed"
+	case r < 8:
+		_, nk := DetConsKey("c19-newkey", s.keyCounter)
+		s.keyCounter++
+		if err := env.App.OperatorKeeper.SetOperatorConsKeyForChainID(env.Ctx, env.Operators[v], chainID, nk); err == nil {
+			s.replaced[v] = true
+			state = "key-just-replaced"
+		}
+	case r == 8 && v == 1 && !s.optedOut:
+		if err := env.App.OperatorKeeper.OptOut(env.Ctx, env.Operators[1], avstypes.GenerateAVSAddr(chainID)); err == nil {
+			s.optedOut = true
+			state = "just-opted-out"
+		}
+	}
+	if state == "active" {
+		switch {
+		case v == 1 && s.optedOut:
+			state = "opted-out-unbonding"
+		case s.replaced[v]:
+			state = "key-replaced-earlier"
+		}
+	}
+	env.Header.ProposerAddress = cons
+	env.NextBlock(time.Second)
+	s.w.Count("proposer=" + state)
+	return fmt.Sprintf("validator%d/%s", v, state)
+}
+
 func (s *c19S) topUp() {
 	// keep the pool solvent over long runs: value leaks to fresh addresses, contracts and the fee collector, so an
 	// account that fell below 1e18 is refilled with freshly minted coins (between blocks, outside any case; the
@@ -594,7 +652,7 @@ func (s *c19S) oneCase(c int) error {
 	}
 	s.setFeeMarket(noBase, base, mgp, mult)
 	s.setBlockMaxGas(blim)
-	env.NextBlock(time.Second)
+	proposer := s.nextBlockProposer()
 	baseFee := s.baseFee() // what every decorator and ApplyTransaction will see in this block
 	s.w.Count(fmt.Sprintf("env.basefee=%v", map[bool]string{true: "off", false: "on"}[noBase]))
 	s.w.Count("env.mult=" + mult.String())
@@ -617,7 +675,7 @@ func (s *c19S) oneCase(c int) error {
 	if directed {
 		n, forcePair = 2, false
 	}
-	cs := c19Case{Suite: "c19", Height: env.Header.Height, Base: baseFee.String(), MGP: mgp.BigInt().String(), Mult: mult.BigInt().String(), BLim: blim}
+	cs := c19Case{Suite: "c19", Proposer: proposer, Height: env.Header.Height, Base: baseFee.String(), MGP: mgp.BigInt().String(), Mult: mult.BigInt().String(), BLim: blim}
 	seen := map[string]bool{}
 	var involved []common.Address
 	note := func(a common.Address) {
